@@ -19,7 +19,9 @@ func (s *Session) val(st *State, v ssa.Value) Value {
 	case *ssa.Global:
 		t := x.Type().Underlying().(*types.Pointer).Elem()
 		if isStructLike(t) {
-			return s.D.Const("globref_"+globalKey(x), SInt)
+			g := s.D.Const("globref_"+globalKey(x), SInt)
+			st.assume(Ne(g, TZero)) // the address of a package-level variable is never nil
+			return g
 		}
 		// address of a package-level variable: scalar heap entry
 		return &Loc{Key: globalKey(x), Sort: ArrSort(SInt, sortOf(t)), Idx: []Term{TZero}, Obj: t}
